@@ -58,6 +58,9 @@ func vMakeIndex(kind int, metric DistanceKind, dim, nlist int) *vUT {
 	return vMakeIndexC(kind, metric, dim, nlist, false)
 }
 
+// vPQConcreteCB: PQ codebook concrete (streams harnesses)
+var vPQConcreteCB bool
+
 // PQ shape used by vMakeIndexC (0 = default: M = dim, nbits = 1)
 var vPQM, vPQNbits int
 
@@ -91,7 +94,11 @@ func vMakeIndexC(kind int, metric DistanceKind, dim, nlist int, symCentroids boo
 		vAssert(err == nil, "constructor")
 		idx.codebooks = make([][]float32, idx.M)
 		for mm := range idx.codebooks {
-			idx.codebooks[mm] = vVec(vName("cb", mm), idx.Ksub*idx.dsub)
+			if vPQConcreteCB {
+				idx.codebooks[mm] = vCopy([]float32{-1, 2, 0.5, -3}[:idx.Ksub*idx.dsub])
+			} else {
+				idx.codebooks[mm] = vVec(vName("cb", mm), idx.Ksub*idx.dsub)
+			}
 		}
 		idx.trained = true
 		u.idx = idx
